@@ -156,3 +156,7 @@ def run(rep, ctx, tier):
                         (bad[0][2].get("callee") or "?").rsplit("::", 1)[-1], bad[0][2]["span"]),
                     bad[0][2]["span"] if bad else b.span)
     rep.count("R1L scopes", n_scopes)
+    # the number of opened columns (the dominant part of a linear-code proof) is capped by the number of columns:
+    # C13's rules on calculate_t, attached here because the cap is a size clause
+    from .c13 import calculate_t_params
+    calculate_t_params(rep, ctx, rule="R11")
